@@ -322,6 +322,16 @@ pub mod spec {
             f32_le(0.0f32, f_max_value()), f32_le(0.0f32, f_infinity()), f32_le(f_min_value(), 0.0f32), f32_le(f_neg_infinity(), 0.0f32);
     /// f32::clamp as std implements it: NaN passes through; panics unless min <= max (which excludes NaN bounds)
     pub open spec fn f_clamp(x: f32, lo: f32, hi: f32) -> f32 { if f32_lt(x, lo) { lo } else if f32_gt(x, hi) { hi } else { x } }
+    // R11: printing a value through its Display impl is a deterministic function of the value; the text itself stays uninterpreted
+    #[verifier::external_trait_specification]
+    pub trait ExDisplay: core::marker::PointeeSized {
+        type ExternalTraitSpecificationFor: core::fmt::Display;
+    }
+    pub uninterp spec fn str_of<T>(x: T) -> Seq<char>;
+    #[verifier::external_body]
+    pub fn to_string_w<T: core::fmt::Display>(x: &T) -> (r: String)
+        ensures r@ == str_of(*x),
+    { x.to_string() }
     pub uninterp spec fn f32_to_usize_spec(x: f32) -> usize;
     pub uninterp spec fn f32_to_i32_spec(x: f32) -> i32;
     #[verifier::external_body]
@@ -421,6 +431,9 @@ pub mod spec {
         ensures s@ == k@ ==> (#[trigger] vstd::std_specs::hash::contains_borrowed_key::<String, V, str>(m, k) == #[trigger] m.contains_key(s));
     pub broadcast axiom fn ax_string_borrow_maps<V>(m: Map<String, V>, k: &str, s: String, v: V)
         ensures s@ == k@ ==> (#[trigger] vstd::std_specs::hash::maps_borrowed_key_to_value::<String, V, str>(m, k, v) == (#[trigger] m.contains_key(s) && m[s] == v));
+    /// A-string-eq (continued): `String == str` is character-wise equality
+    pub assume_specification[<String as PartialEq<str>>::eq](a: &String, b: &str) -> (r: bool)
+        ensures r == (a@ == b@);
     /// A-string-eq: `&String == &String` is character-wise equality (vstd specifies this only for `String == String` by value)
     #[verifier::allow(broadcast_without_trigger)]
     pub broadcast axiom fn ax_string_obeys_eq() ensures <String as PartialEqSpec>::obeys_eq_spec();
